@@ -775,10 +775,89 @@ def rec_cmp(arg):
     return ev
 
 
+_RE_SUMMARY = re.compile(r"^Summary: (\d+) identical, (\d+) different$", re.M)
+
+
+def rec_dir(arg):
+    """The comparison tool on two DIRECTORIES of numbered pictures (main([dir_a, dir_b])): 1-4 pairs, file
+    numbers in an order in which numeric and lexicographic sorting differ, different name stems and zero padding
+    in the two directories; each pair is made identical / different in padding bits, samples, picture number,
+    one video parameter or the coding mode."""
+    import shutil
+    from vc2_conformance import file_format
+    from vc2_conformance.scripts import vc2_picture_compare as pc
+
+    mark_used()
+    tid, seed = arg
+    rnd = random.Random(seed)
+    fmt = rand_format(rnd)
+    dims = own_dims(fmt)
+    npairs = rnd.randrange(1, 5)
+    numbers = sorted(rnd.sample([0, 1, 2, 3, 9, 10, 11, 100], npairs))
+    da = os.path.join(workdir(), "da%d" % os.getpid())
+    db = os.path.join(workdir(), "db%d" % os.getpid())
+    for d in (da, db):
+        shutil.rmtree(d, ignore_errors=True)
+        os.makedirs(d)
+    pairs = []
+    ev = {"tid": tid, "ev": "dir", "fmt": fmt, "numbers": numbers, "pairs": pairs, "exit": -1, "nsame": -1, "ndifferent": -1, "exc": "none"}
+    try:
+        for i, num in enumerate(numbers):
+            kind = rnd.choice(["same", "same", "same", "pad", "samples", "samples", "number", "params", "mode"])
+            pn = rnd.choice([0, 5, (1 << 32) - 1])
+            pa = make_picture(dims, "rand", pn, rnd)
+            vp = make_vp(fmt, seed + i)
+            vpb = make_vp(fmt, seed + i)
+            fmt_b = fmt
+            n = {"Y": 0, "C1": 0, "C2": 0}
+            sameparams = samemode = True
+            pnb = pn
+            if kind == "samples":
+                for c in rnd.sample(COMPS, rnd.randrange(1, 4)):
+                    n[c] = rnd.randrange(1, dims[c][0] * dims[c][1] + 1)
+            elif kind == "number":
+                pnb = (pn + rnd.choice([1, 1 << 31])) % (1 << 32)
+            elif kind == "params":
+                vpb["frame_rate_numer"] += 1
+                sameparams = False
+            elif kind == "mode":
+                cand = dict(fmt, fields=not fmt["fields"])
+                if valid_format(cand):
+                    fmt_b = cand
+                    samemode = False
+            dims_b = own_dims(fmt_b)
+            pb = apply_sample_diffs(pa, dims, n, rnd) if dims_b == dims else make_picture(dims_b, "rand", pn, rnd)
+            pb["pic_num"] = pnb
+            fa = os.path.join(da, "picture_%d.raw" % num)
+            fb = os.path.join(db, "out%s%03d.raw" % ("_" if seed % 2 else "", num))
+            file_format.write(pa, vp, make_mode(fmt["fields"]), fa)
+            file_format.write(pb, vpb, make_mode(fmt_b["fields"]), fb)
+            if kind == "pad":
+                set_padding_bits(fb, vpb, make_mode(fmt_b["fields"]))
+            pairs.append({"kind": kind, "sameparams": sameparams, "samemode": samemode, "samenumber": pnb == pn, "counts": n if (sameparams and samemode) else {"Y": 0, "C1": 0, "C2": 0}})
+        buf = io.StringIO()
+        with contextlib.redirect_stdout(buf):
+            code = pc.main([da, db])
+        ev["exit"] = int(code)
+        m = _RE_SUMMARY.search(buf.getvalue())
+        if m:
+            ev["nsame"], ev["ndifferent"] = int(m.group(1)), int(m.group(2))
+    except BaseException as e:  # noqa
+        if isinstance(e, KeyboardInterrupt):
+            raise
+        ev["exc"] = common.exc_signature(e) if isinstance(e, Exception) else "SystemExit(%s)" % (e.code,)
+    finally:
+        shutil.rmtree(da, ignore_errors=True)
+        shutil.rmtree(db, ignore_errors=True)
+    return ev
+
+
 def rec_any(job):
     kind, tid, seed = job
     if kind == "ses":
         return rec_session((tid, seed))
+    if kind == "dir":
+        return rec_dir((tid, seed))
     return (rec_rt if kind == "rt" else rec_cmp)((tid, seed))
 
 
@@ -786,7 +865,7 @@ def trace_direction(ctx, ses_jobs, ses_out):
     """ses_out: the events of the sessions (each recorded in a freshly forked process, see proc_direction)"""
     from .. import trace
 
-    counts = ctx.pick({"rt": 600, "cmp": 900}, {"rt": 6000, "cmp": 9000})
+    counts = ctx.pick({"rt": 600, "cmp": 900, "dir": 300}, {"rt": 6000, "cmp": 9000, "dir": 3000})
     counts["ses"] = len(ses_jobs)
     records, rec_jobs = [], []
     for job, evs in zip(ses_jobs, ses_out):
@@ -795,7 +874,7 @@ def trace_direction(ctx, ses_jobs, ses_out):
     nses = len(records)
     jobs = []
     tid = 0
-    for kind in ("rt", "cmp"):
+    for kind in ("rt", "cmp", "dir"):
         for _ in range(counts[kind]):
             tid += 1
             jobs.append((kind, tid, ctx.seed * 1000003 + tid))
@@ -841,6 +920,16 @@ def trace_direction(ctx, ses_jobs, ses_out):
         if r["ev"] == "cmp":
             exits[r["exit"]] = exits.get(r["exit"], 0) + 1
     guard(ctx, all(exits.get(k, 0) > 0 for k in (0, 1, 2, 3, 4)), "vacuity: recorded comparisons did not produce every exit code: %r" % (exits,))
+    dirs = [r for r in records if r["ev"] == "dir" and r["exc"] == "none"]
+    ident = lambda q: q["sameparams"] and q["samemode"] and q["samenumber"] and not any(q["counts"].values())
+    dir_stats = {
+        "runs": len(dirs),
+        "all_identical_with_2_or_more_pairs": sum(1 for r in dirs if len(r["pairs"]) > 1 and all(ident(q) for q in r["pairs"])),
+        "different_pair_followed_by_identical_last_pair": sum(1 for r in dirs if len(r["pairs"]) > 1 and ident(r["pairs"][-1]) and not all(ident(q) for q in r["pairs"])),
+        "numeric_order_differs_from_lexicographic": sum(1 for r in dirs if sorted(map(str, r["numbers"])) != list(map(str, r["numbers"]))),
+        "exit_codes": dict((str(k), sum(1 for r in dirs if r["exit"] == k)) for k in sorted(set(r["exit"] for r in dirs))),
+    }
+    guard(ctx, dir_stats["all_identical_with_2_or_more_pairs"] > 0 and dir_stats["different_pair_followed_by_identical_last_pair"] > 0 and dir_stats["numeric_order_differs_from_lexicographic"] > 0, "vacuity: recorded directory comparisons: %r" % (dir_stats,))
     deep = sum(1 for r in records if r["ev"] == "rt" and max(r["fmt"]["dl"], r["fmt"]["dc"]) > 32)
     guard(ctx, deep > 0, "vacuity: no recorded round trip above 32 bits")
     # binding self-test: corrupted recorded fields must be rejected on exactly those lines
@@ -864,14 +953,18 @@ def trace_direction(ctx, ses_jobs, ses_out):
         rt2["wra"] = wra
         rt3 = next(dict(r) for r in records if r["ev"] == "rt" and r["exc"] == "none")
         rt3["argsame"] = False
-        pbad, _ = trace.validate("RawFileTrace", [rt, cm, c0, rt2, rt3])
+        d0 = next(dict(r) for r in dirs if r["exit"] == 0 and len(r["pairs"]) > 1)
+        d0["exit"] = 4
+        d4 = next(dict(r) for r in dirs if r["exit"] != 0 and ident(r["pairs"][-1]))
+        d4["exit"] = 0
+        pbad, _ = trace.validate("RawFileTrace", [rt, cm, c0, rt2, rt3, d0, d4])
         got = sorted((b["line"], b["clause"], b["alarm"]) for b in pbad)
-        okst = got == [(1, "RoundTripSamples", True), (2, "DifferenceCounts", True), (3, "ExitCode", True), (4, "WriteChangedPicture", True), (5, "WriteChangedArguments", True)]
+        okst = got == [(1, "RoundTripSamples", True), (2, "DifferenceCounts", True), (3, "ExitCode", True), (4, "WriteChangedPicture", True), (5, "WriteChangedArguments", True), (6, "DirExitZeroIffAllIdentical", True), (7, "DirExitZeroIffAllIdentical", True)]
     except StopIteration:
         got, okst = "no suitable recorded event", False
     guard(ctx, okst, "trace binding self-test failed: corrupted fields judged as %r" % (got,))
     small = lambda r: dict((k, (v if k not in ("wr", "wra", "rd", "file", "a", "b") else "...")) for k, v in r.items())
-    return len(records), dis, {"exit_codes": exits, "roundtrips_above_32_bits": deep, "sessions_in_one_process": ses_stats}, [small(records[0]), small(records[nses]), small(records[nses + counts["rt"]])]
+    return len(records), dis, {"exit_codes": exits, "roundtrips_above_32_bits": deep, "sessions_in_one_process": ses_stats, "directory_mode": dir_stats}, [small(records[0]), small(records[nses]), small(records[nses + counts["rt"]])]
 
 
 def selftest_proc(arg):
